@@ -81,15 +81,9 @@ def schedOp (args : List String) : String :=
                          decay := parseRat d, kl := parseRat e, lr := parseRat f }
     let lam : Lambdas := { fus := parseLam l1, ius := parseLam l2, damping := parseLam l3,
                            decay := parseLam l4, kl := parseLam l5, lr := parseLam l6 }
-    let calls := splitOnC (argOf args "calls") ','
+    let calls := (splitOnC (argOf args "calls") ',').map fun c => if c == "-" then none else some (parseNat! c)
     let steps := parseNats (argOf args "steps")
-    let rec go (p : Params) (cs : List String) (ss : List Nat) (acc : List String) : List String :=
-      match cs, ss with
-      | c :: ct, s :: st =>
-        let p' := schedStep lam p s (if c == "-" then none else some (parseNat! c))
-        go p' ct st (showParams p' :: acc)
-      | _, _ => acc.reverse
-    joinWith "|" (go p0 calls steps [])
+    joinWith "|" ((schedTrace lam p0 (List.zip steps calls)).map showParams)
   | _, _ => "bad-op"
 
 open KV.Sched in
